@@ -2,6 +2,7 @@ package explore
 
 import (
 	"fmt"
+	"os"
 	"regexp"
 	"sort"
 	"strings"
@@ -111,6 +112,8 @@ func siteKey(s string) string {
 	return f
 }
 
+var detCheck = os.Getenv("VCHECK_DETERMINISM2") != ""
+
 var idRe = regexp.MustCompile(`\[[^\]]*\]|0x[0-9a-f]+`)
 
 func short(s string) string {
@@ -137,6 +140,24 @@ func RunProgram(c *fw.Ctx, p *Program) bool {
 	st, err := Explore(opt, p.Body, func(x *Exec) bool {
 		if p.Outcome != nil && len(outcomes) < 2000 {
 			outcomes[p.Outcome()] = true
+		}
+		if detCheck && c.SetLen("determinism") < 3 {
+			ropt := opt
+			if y, err := RunOnce(&ropt, x.Choices, p.Body); err != nil {
+				c.SetAdd("determinism", p.Name+": "+err.Error())
+			} else {
+				a, b := x.Res.Trace, y.Res.Trace
+				for k := 0; k < len(a) && k < len(b); k++ {
+					if a[k].Thread != b[k].Thread || a[k].Op != b[k].Op || a[k].Obj != b[k].Obj {
+						lo := k - 8
+						if lo < 0 {
+							lo = 0
+						}
+						c.SetAdd("determinism", fmt.Sprintf("%s: choices %v: step %d: %+v vs %+v; before: %+v", p.Name, x.Choices, k, a[k], b[k], a[lo:k]))
+						break
+					}
+				}
+			}
 		}
 		v := verdict(p, x)
 		if v == nil {
@@ -282,4 +303,34 @@ func ReplayProgram(p *Program, choices []int) (*fw.Violation, error) {
 		return nil, nil
 	}
 	return &fw.Violation{Property: p.Prop, Clause: v.Clause, Signature: p.Prop + "/" + v.Kind, Detail: v.Detail}, nil
+}
+
+// Determinism runs the default schedule of body n times and describes the first difference
+// between the recorded traces ("" = identical): a diagnostic for uncontrolled nondeterminism.
+func Determinism(opt Options, body func(), n int) string {
+	var first *Exec
+	for i := 0; i < n; i++ {
+		x, err := RunOnce(&opt, nil, body)
+		if err != nil {
+			return "run " + fmt.Sprint(i) + ": " + err.Error()
+		}
+		if first == nil {
+			first = x
+			continue
+		}
+		a, b := first.Res.Trace, x.Res.Trace
+		for k := 0; k < len(a) && k < len(b); k++ {
+			if a[k].Thread != b[k].Thread || a[k].Op != b[k].Op || a[k].Obj != b[k].Obj {
+				lo := k - 6
+				if lo < 0 {
+					lo = 0
+				}
+				return fmt.Sprintf("run %d differs at trace step %d: %+v vs %+v; context %+v", i, k, a[k], b[k], a[lo:k])
+			}
+		}
+		if len(a) != len(b) {
+			return fmt.Sprintf("run %d: trace length %d vs %d", i, len(a), len(b))
+		}
+	}
+	return ""
 }
